@@ -686,9 +686,10 @@ Definition pristine_tree (c : cfgT) (f : fsT) (l : layer) : bool :=
     if at_or_under d (fst ent) then
       match snd ent with
       | Dir => memb (fst ent) allowed_dirs || memb (fst ent) (prefixes (build_path c l))
-      | File _ => beq (fst ent) (layerconfig_path l)
+      | File x => beq (fst ent) (layerconfig_path l)
                   || (match l_base l with
                       | [] => beq (fst ent) (pathjoin [build_path c l; bs "root"; bs ".bashrc"])
+                              && beq x D_BaseLayerRootBashrc
                       | _ => false end)
       | Link _ => false
       end
